@@ -222,6 +222,16 @@ class Continuous(AgentSchedulingComponent):
                 self._log.debug_9('not enough cores on %s', node_name)
                 break
 
+            # lfs and mem are consumed by all slots placed on this node
+            n_placed = len(slots) + 1
+            if lfs_per_slot and lfs_per_slot * n_placed > (node['lfs'] or 0):
+                self._log.debug_9('not enough lfs on %s', node_name)
+                break
+
+            if mem_per_slot and mem_per_slot * n_placed > (node['mem'] or 0):
+                self._log.debug_9('not enough mem on %s', node_name)
+                break
+
             # gpus can be shared, so we need proper resource tracking.  If
             # a slot requires one or more GPUs, GPU sharing is disabled.
             if gpus_per_slot >= 1.0:
